@@ -376,4 +376,40 @@ def flushEvents : List Act → List Event
   | .write ws :: rest => .batch ws :: flushEvents rest
   | _ :: rest => flushEvents rest
 
+/-! ### the block cache in front of the store (`bc.blockCache`) -/
+
+/-- hash ↦ cached block; `GetBlock` answers from it without looking at the store -/
+abbrev BlockCache := List (Hash × Hdr)
+
+def cacheGet : BlockCache → Hash → Option Hdr
+  | [], _ => none
+  | (h', hd) :: rest, h => if h' = h then some hd else cacheGet rest h
+
+/-- `BlockChain.GetBlock(hash, number)`: the cache first (keyed by hash only), then the store -/
+def getBlockC (c : BlockCache) (db : Db) (h : Hash) (n : Nat) : Option Hdr :=
+  match cacheGet c h with
+  | some hd => some hd
+  | none => getBlock db h n
+
+/-- coherence: every cached block is a block the store holds (under the block's own number) -/
+def Coherent (c : BlockCache) (db : Db) : Prop := ∀ h hd, cacheGet c h = some hd → getBlock db h hd.num = some hd
+
+/-- what happens to the pair (cache, store) -/
+inductive CacheStep
+  | read (h : Hash) (n : Nat)            -- `GetBlock(h, n)`: a miss that finds the block in the store caches it
+  | wrote (e : Event)                    -- a write that went through
+  | failed (e : Event)                   -- a write that failed: the store is unchanged, the caller returns an error
+  | addUnflushed (h : Hash) (hd : Hdr)   -- NOT in the code: `blockCache.Add` of a block whose batch is not flushed yet
+
+def cstep : BlockCache × Db → CacheStep → BlockCache × Db
+  | (c, db), .read h n =>
+    match cacheGet c h with
+    | some _ => (c, db)
+    | none => match getBlock db h n with
+      | some hd => ((h, hd) :: c, db)
+      | none => (c, db)
+  | (c, db), .wrote e => (c, apply db e)
+  | (c, db), .failed _ => (c, db)
+  | (c, db), .addUnflushed h hd => ((h, hd) :: c, db)
+
 end Aqv.ChainDb
